@@ -1,328 +1,237 @@
 /-
-Scratch prototype for C18: the placement driver's decisions on one partition's replica info, as total
-functions returning the info to write (or none = no write), and the invariant every written info
-keeps, for every sequence of decisions and environment answers.
+  C18 — executable model of the placement driver's decisions on ONE partition's replica info
+  (cluster/pdnode_coord/pd_coordinator.go handleNamespaceMigrate, addNamespaceToNode,
+  removeNamespaceFromNode, removeNamespaceFromRemovings; place_driver.go rebalanceNamespace +
+  addNodeToNamespaceAndWaitReady for a one-partition namespace), as total functions
+  "result class + the info handed to UpdateNamespacePartReplicaInfo, or none".
+  Every guard is a `Gen.*` definition regenerated from the Go source (ZanVerif.Gen.Coord).
+  Core only (linked into the driver). Grown out of the design prototype (notes/prototypes/Coord.lean.txt).
+
+  Environment of one decision (`Env`): the coordinator's view of the live data nodes, the answers of the
+  data nodes to /cluster/israftsynced and /cluster/members, whether the removal grace time has passed,
+  whether the register's compare-and-swap succeeds, and the answer of the layout function
+  (`expect`: the replica list getRebalancedNamespacePartitions wants for this partition — ANY outcome
+  for the theorems; the driver computes it with the C17 model).
 -/
+import ZanVerif.Gen.Coord
+import ZanVerif.Place.Model
+
 namespace Z.Coord
+open Z.Place (Outcome)
 
 structure Info where
   nodes : List Nat                 -- RaftNodes
   ids : List (Nat × Nat)           -- RaftIDs: node -> replica id
-  removing : List Nat              -- Removings (keys)
+  removing : List Nat              -- keys of Removings
+  zeroTime : List Nat              -- keys of Removings whose RemoveTime is 0
   maxId : Nat                      -- MaxRaftID
-  replica : Nat                    -- configured replication factor
+  replica : Nat                    -- configured replication factor (NamespaceMetaInfo.Replica)
   issued : List Nat                -- ghost: every replica id ever handed out
+deriving Repr, DecidableEq
 
+/-- GetISR -/
 def isr (i : Info) : List Nat := i.nodes.filter (fun n => !i.removing.contains n)
-def isrQuorum (i : Info) : Bool := decide ((isr i).length > i.replica / 2)
+/-- IsISRQuorum (regenerated) -/
+def isrQuorum (i : Info) : Bool := Gen.isISRQuorum (isr i).length i.replica
 
-/-- environment answers for one `handleNamespaceMigrate` call -/
 structure Env where
-  alive : Nat → Bool
-  synced : Nat → Bool
-  allReady : Bool
-  clusterSize : Nat
-  alloc : Option Nat               -- allocNodeForNamespace: a live node outside RaftNodes, or none
+  alive : Nat → Bool               -- in the coordinator's data-node map AND answering HTTP
+  synced : Nat → Bool              -- /cluster/israftsynced answers 200
+  ready : Nat → Bool               -- /cluster/members lists every ISR member with its replica id
+  joined : Nat → Bool              -- a removing node is still listed as raft member by the others
+  elapsed : Bool                   -- waitRemoveRemovingNodeInterval has passed since the mark
+  casOk : Bool                     -- UpdateNamespacePartReplicaInfo succeeds
+  clusterSize : Nat                -- len(currentNodes)
+  expect : List Nat → Outcome (List Nat)   -- layout function: ISR ↦ wanted replica list of this partition
 
-/-- the marking loop: first dead replica is marked if no removal is pending and ISR-1 > replica/2;
-    any live replica that is not synced aborts the whole call -/
+/-- IsRaftNodeSynced -/
+def nodeSynced (e : Env) (n : Nat) : Bool := e.alive n && e.synced n
+/-- IsAllISRFullReady: every ISR member answers, lists all ISR members, and is synced -/
+def allReady (e : Env) (i : Info) : Bool := (isr i).all fun x => e.alive x && e.ready x && e.synced x
+
+inductive Res where
+  | ok
+  | err (cls : String)
+  | bal (moved balanced : Bool)
+  | panic (cls : String)
+deriving Repr, DecidableEq
+
+/-- a decision: what the method returns and what it hands to the register (an attempted write) -/
+structure Dec where
+  res : Res
+  write : Option Info
+deriving Repr
+
+/-- `m[n] = id` on the RaftIDs map -/
+def setId (ids : List (Nat × Nat)) (n id : Nat) : List (Nat × Nat) := (n, id) :: ids.filter (fun x => x.1 != n)
+
+/-- MaxRaftID += step; RaftIDs[n] = MaxRaftID; RaftNodes = append(RaftNodes, n) -/
+def addNew (i : Info) (n : Nat) (step : Int) : Info :=
+  let m := ((i.maxId : Int) + step).toNat
+  { i with maxId := m, ids := setId i.ids n m, nodes := i.nodes ++ [n], issued := m :: i.issued }
+
+/-! ### handleNamespaceMigrate -/
+
+/-- the marking loop over RaftNodes: a live replica that is not synced aborts the call; the first dead
+    replica is marked if `canMark` -/
 def markLoop (e : Env) (i : Info) : List Nat → Option Info
   | [] => some i
   | r :: rs =>
     if e.alive r then
-      if e.synced r then markLoop e i rs else none
-    else if i.removing.isEmpty && decide ((isr i).length - 1 > i.replica / 2) && !i.removing.contains r then
+      if Gen.unsyncedAborts (nodeSynced e r) then none else markLoop e i rs
+    else if !i.removing.contains r && Gen.canMark i.removing.length (isr i).length i.replica then
       markLoop e { i with removing := r :: i.removing } rs
     else markLoop e i rs
 
-def addNew (i : Info) (n : Nat) : Info :=
-  { i with maxId := i.maxId + 1, ids := (n, i.maxId + 1) :: i.ids, nodes := i.nodes ++ [n],
-           issued := (i.maxId + 1) :: i.issued }
+/-- allocNodeForNamespace: the first name of the wanted list that is not a raft node yet -/
+def alloc (e : Env) (i : Info) : Outcome (Option Nat) :=
+  match e.expect (isr i) with
+  | .ok row => .ok (row.find? fun n => !i.nodes.contains n)
+  | .refused => .ok none
+  | .panicEmpty => .panicEmpty
+  | .panicIndex => .panicIndex
 
-/-- add one replacement when nothing is being removed, everybody reports ready and a replica is missing -/
-def chooseAdd (e : Env) (i1 : Info) (aliveCnt : Nat) : Info :=
-  if i1.removing.isEmpty && e.allReady && decide (aliveCnt < i1.replica) then
-    match e.alloc with
-    | some n => if i1.nodes.contains n then i1 else addNew i1 n
-    | none => i1
-  else i1
+def commit (e : Env) (okRes : Res) (failCls : String) (i : Info) : Dec :=
+  ⟨if e.casOk then okRes else .err failCls, some i⟩
 
-def migrate (e : Env) (i : Info) : Option Info :=
-  if !i.removing.isEmpty then none else
+/-- the tail of handleNamespaceMigrate: write iff something changed and the ISR still is a quorum -/
+def migrateFinish (e : Env) (i2 : Info) (changed : Bool) : Dec :=
+  if Gen.migrateWrites changed (isrQuorum i2) then
+    if Gen.twoRemovings i2.removing.length then ⟨.err "conf-invalid", none⟩
+    else commit e .ok "register-unstable" i2
+  else ⟨.err "migrate-waiting", none⟩
+
+/-- the add block: one replacement, only when nothing is being removed, every ISR member is ready and
+    fewer than `Replica` replicas are alive -/
+def migrateAdd (e : Env) (i i1 : Info) (aliveCnt : Nat) : Dec :=
+  let marked := decide (i1.removing ≠ i.removing)
+  if Gen.addGate i1.removing.length (allReady e i1) && Gen.needAdd aliveCnt i.replica then
+    match alloc e i1 with
+    | .ok (some n) => migrateFinish e (addNew i1 n Gen.raftIdStepMigrate) true
+    | .ok none => migrateFinish e i1 marked
+    | .refused => migrateFinish e i1 marked
+    | .panicEmpty => ⟨.panic "v2-empty-candidates", none⟩
+    | .panicIndex => ⟨.panic "index-out-of-range", none⟩
+  else migrateFinish e i1 marked
+
+def migrate (e : Env) (i : Info) : Dec :=
+  if Gen.migrateBusy i.removing.length then ⟨.err "migrate-waiting", none⟩ else
   match markLoop e i i.nodes with
-  | none => none
+  | none => ⟨.err "migrate-waiting", none⟩
   | some i1 =>
     let aliveCnt := (i.nodes.filter e.alive).length
-    if !i1.removing.isEmpty && decide (aliveCnt ≤ i.replica / 2) then none
-    else if decide (e.clusterSize < i.replica) && !i1.removing.isEmpty then none
-    else
-      let i2 := chooseAdd e i1 aliveCnt
-      let changed := decide (i2.removing ≠ i.removing) || decide (i2.nodes ≠ i.nodes)
-      if changed && isrQuorum i2 then some i2 else none
+    if Gen.aliveTooFew i1.removing.length aliveCnt i.replica then ⟨.err "migrate-waiting", none⟩
+    else if Gen.clusterTooSmall e.clusterSize i.replica i1.removing.length then ⟨.err "node-unavailable", none⟩
+    else migrateAdd e i i1 aliveCnt
 
-def addNode (i : Info) (n : Nat) : Option Info :=
-  if !i.removing.isEmpty then none
-  else if i.nodes.contains n then none          -- checkNamespaceNodeConflict
-  else some (addNew i n)
+/-! ### addNamespaceToNode -/
 
-def removeNode (i : Info) (n : Nat) : Option Info :=
-  if i.removing.contains n then none
-  else if !(i.ids.map (·.1)).contains n then none
-  else if !isrQuorum i then none
-  else if !i.removing.isEmpty then none
+def addNode (e : Env) (i : Info) (n : Nat) : Dec :=
+  if Gen.addBusy i.removing.length then ⟨.err "waiting-sync", none⟩
+  else if i.nodes.contains n then ⟨.err "node-conflict", none⟩       -- checkNamespaceNodeConflict
+  else commit e .ok "register-err" (addNew i n Gen.raftIdStepAdd)
+
+/-! ### removeNamespaceFromNode -/
+
+def removeNode (e : Env) (i : Info) (n : Nat) : Dec :=
+  if i.removing.contains n then ⟨.ok, none⟩
+  else if !(i.ids.map (·.1)).contains n then ⟨.err "raftid-not-found", none⟩
+  else if Gen.removePre (isrQuorum i) then ⟨.err "replica-not-enough", none⟩
+  else if Gen.removeBusy i.removing.length then ⟨.err "migrate-waiting", none⟩
   else
     let i1 := { i with removing := n :: i.removing }
-    if !isrQuorum i1 || decide (i1.removing.length > 1) then none else some i1
+    if Gen.removePost (isrQuorum i1) i1.removing.length then ⟨.err "replica-not-enough", none⟩
+    else commit e .ok "register-err" i1
 
-def finishRemoving (i : Info) (n : Nat) : Option Info :=
-  if !i.removing.contains n then none else
-  let nodes := i.nodes.filter (· != n)
-  if nodes.length < 1 then none else
-  let i1 := { i with nodes := nodes, ids := i.ids.filter (·.1 != n), removing := i.removing.filter (· != n) }
-  if isrQuorum i1 then some i1 else none
+/-! ### removeNamespaceFromRemovings -/
 
-/-- what every written info keeps -/
-structure Inv (i : Info) : Prop where
-  oneRemoving : i.removing.length ≤ 1
-  quorum : (isr i).length > i.replica / 2
-  idsBound : ∀ x ∈ i.ids, x.2 ≤ i.maxId
-  issuedBound : ∀ x ∈ i.issued, x ≤ i.maxId
-  idsIssued : ∀ x ∈ i.ids, x.2 ∈ i.issued
-  issuedNodup : i.issued.Nodup
+/-- IsRaftNodeJoined(nid) answers (false, nil): every other ISR member answered and none lists nid -/
+def notJoined (e : Env) (i : Info) (n : Nat) : Bool :=
+  let others := (isr i).filter (· != n)
+  !Gen.finishStillJoined (others.any fun x => e.alive x && e.joined n) (others.any fun x => !e.alive x)
 
-/-! ### the marking loop adds at most one removal, only from an empty set -/
+/-- one entry of Removings -/
+def finishOne (e : Env) (i : Info) (n : Nat) : Option Info :=
+  if i.zeroTime.contains n then none
+  else if !e.elapsed then none
+  else if !notJoined e i n then none
+  else
+    let nodes := i.nodes.filter (· != n)
+    if Gen.finishTooFew nodes.length then none
+    else some { i with nodes := nodes, ids := i.ids.filter (·.1 != n), removing := i.removing.filter (· != n),
+                       zeroTime := i.zeroTime.filter (· != n) }
 
-theorem markLoop_props (e : Env) : ∀ (rs : List Nat) (i i' : Info), markLoop e i rs = some i' →
-    i'.nodes = i.nodes ∧ i'.ids = i.ids ∧ i'.maxId = i.maxId ∧ i'.replica = i.replica ∧ i'.issued = i.issued ∧
-    (i'.removing = i.removing ∨ (i.removing = [] ∧ ∃ r, i'.removing = [r])) := by
-  intro rs
-  induction rs with
-  | nil => intro i i' h; simp only [markLoop] at h; injection h with h; subst h; simp
-  | cons r rs ih =>
-    intro i i' h
-    simp only [markLoop] at h
-    split at h
-    · split at h
-      · exact ih i i' h
-      · cases h
-    · split at h
-      · rename_i hc
-        simp only [Bool.and_eq_true, List.isEmpty_iff] at hc
-        obtain ⟨h1, h2, h3, h4, h5, h6⟩ := ih _ i' h
-        refine ⟨h1, h2, h3, h4, h5, ?_⟩
-        right
-        refine ⟨hc.1.1, ?_⟩
-        rcases h6 with h6 | ⟨h6, _⟩
-        · exact ⟨r, by rw [h6, hc.1.1]⟩
-        · simp at h6
-      · exact ih i i' h
+/-- the loop over Removings (a Go map; at most one entry in every state the coordinator writes) -/
+def finishLoop (e : Env) : Info → List Nat → Info × Bool
+  | i, [] => (i, false)
+  | i, n :: rest =>
+    match finishOne e i n with
+    | some i' => let (j, _) := finishLoop e i' rest; (j, true)
+    | none => finishLoop e i rest
 
-theorem isr_nil {i : Info} (h : i.removing = []) : isr i = i.nodes := by
-  simp [isr, h]
+def finishRemoving (e : Env) (i : Info) : Dec :=
+  let (i1, changed) := finishLoop e i i.removing
+  -- the method returns nothing: a failed compare-and-swap is only logged
+  if Gen.finishWrites changed (isrQuorum i1) then ⟨.ok, some i1⟩ else ⟨.ok, none⟩
 
-theorem inv_addNew {i : Info} (inv : Inv i) (n : Nat) (hrem : i.removing = []) : Inv (addNew i n) := by
-  refine ⟨?_, ?_, ?_, ?_, ?_, ?_⟩
-  · simp [addNew, hrem]
-  · have := inv.quorum
-    rw [isr_nil hrem] at this
-    rw [isr_nil (i := addNew i n) (by simp [addNew, hrem])]
-    simp only [addNew, List.length_append, List.length_cons, List.length_nil]; omega
-  · intro x hx
-    simp only [addNew, List.mem_cons] at hx ⊢
-    rcases hx with rfl | hx
-    · simp
-    · have := inv.idsBound x hx; omega
-  · intro x hx
-    simp only [addNew, List.mem_cons] at hx ⊢
-    rcases hx with rfl | hx
-    · simp
-    · have := inv.issuedBound x hx; omega
-  · intro x hx
-    simp only [addNew, List.mem_cons] at hx ⊢
-    rcases hx with rfl | hx
-    · exact Or.inl rfl
-    · exact Or.inr (inv.idsIssued x hx)
-  · simp only [addNew, List.nodup_cons]
-    refine ⟨fun h => ?_, inv.issuedNodup⟩
-    have := inv.issuedBound _ h; omega
+/-! ### rebalanceNamespace (one-partition namespace; one register write per call, see the harness) -/
 
-/-- a fresh replica id was never issued before: ids are never reused -/
-theorem addNew_fresh {i : Info} (inv : Inv i) (n : Nat) : (i.maxId + 1) ∉ i.issued := by
-  intro h; have := inv.issuedBound _ h; omega
+def swapHead (l : List Nat) (x : Nat) : List Nat :=
+  match l with
+  | [] => []
+  | h :: t => if x ∈ t then x :: t.map (fun y => if y = x then h else y) else h :: t
 
-theorem inv_addNode {i i' : Info} (inv : Inv i) (n : Nat) (h : addNode i n = some i') : Inv i' := by
-  simp only [addNode] at h
-  split at h
-  · cases h
-  · rename_i hr
-    split at h
-    · cases h
-    · injection h with h; subst h
-      exact inv_addNew inv n (by simpa using hr)
+def balance (e : Env) (i : Info) : Dec :=
+  if !i.removing.isEmpty then ⟨.bal false true, none⟩
+  else if !(Gen.balanceReadyGate && allReady e i) then ⟨.bal false true, none⟩
+  else match e.expect (isr i) with
+  | .refused => ⟨.bal false false, none⟩
+  | .panicEmpty => ⟨.panic "v2-empty-candidates", none⟩
+  | .panicIndex => ⟨.panic "index-out-of-range", none⟩
+  | .ok exp =>
+    match (isr i).filter (fun n => !exp.contains n) with
+    | nid :: _ =>
+      if Gen.balanceAddFirst (isr i).length i.replica then
+        -- addNodeToNamespaceAndWaitReady: first wanted name that is not a raft node, gated on readiness again
+        match exp.find? (fun n => !i.nodes.contains n) with
+        | none => ⟨.bal false false, none⟩
+        | some c =>
+          if allReady e i then ⟨.bal false false, (addNode e i c).write⟩ else ⟨.bal false false, none⟩
+      else
+        ⟨.bal true false, (removeNode e i nid).write⟩
+    | [] =>
+      match exp.head?, i.nodes.head? with
+      | some want, some cur =>
+        if decide ((isr i).length ≥ i.replica) && decide (cur ≠ want) && i.nodes.contains want then
+          ⟨.bal true false, some { i with nodes := swapHead i.nodes want }⟩
+        else ⟨.bal false true, none⟩
+      | _, _ => ⟨.bal false true, none⟩
 
-theorem inv_removeNode {i i' : Info} (inv : Inv i) (n : Nat) (h : removeNode i n = some i') : Inv i' := by
-  simp only [removeNode] at h
-  repeat (split at h; · cases h)
-  rename_i hq
-  injection h with h; subst h
-  simp only [Bool.or_eq_true, Bool.not_eq_true', decide_eq_true_eq, not_or, Bool.not_eq_false,
-    Nat.not_lt] at hq
-  refine ⟨hq.2, ?_, inv.idsBound, inv.issuedBound, inv.idsIssued, inv.issuedNodup⟩
-  have := hq.1
-  simp only [isrQuorum, decide_eq_true_eq] at this
-  exact this
-
-theorem inv_finish {i i' : Info} (inv : Inv i) (n : Nat) (h : finishRemoving i n = some i') : Inv i' := by
-  simp only [finishRemoving] at h
-  repeat (split at h; · cases h)
-  split at h
-  · rename_i hq
-    injection h with h; subst h
-    refine ⟨?_, ?_, ?_, inv.issuedBound, ?_, inv.issuedNodup⟩
-    · exact Nat.le_trans (List.length_filter_le _ _) inv.oneRemoving
-    · simpa [isrQuorum] using hq
-    · intro x hx; exact inv.idsBound x (List.mem_filter.mp hx).1
-    · intro x hx; exact inv.idsIssued x (List.mem_filter.mp hx).1
-  · cases h
-
-/-- anything that differs from a valid info only by ≤ 1 removal and still has an ISR quorum is valid -/
-theorem inv_base {i j : Info} (inv : Inv i) (e1 : j.ids = i.ids) (e2 : j.maxId = i.maxId)
-    (e3 : j.issued = i.issued) (e4 : j.removing.length ≤ 1) (e5 : isrQuorum j = true) : Inv j := by
-  refine ⟨e4, by simpa [isrQuorum] using e5, ?_, ?_, ?_, ?_⟩
-  · rw [e1, e2]; exact inv.idsBound
-  · rw [e3, e2]; exact inv.issuedBound
-  · rw [e1, e3]; exact inv.idsIssued
-  · rw [e3]; exact inv.issuedNodup
-
-theorem inv_chooseAdd {e : Env} {i1 : Info} (inv1 : Inv i1) (a : Nat) : Inv (chooseAdd e i1 a) := by
-  unfold chooseAdd
-  split
-  · rename_i hadd
-    simp only [Bool.and_eq_true, List.isEmpty_iff] at hadd
-    split
-    · split
-      · exact inv1
-      · exact inv_addNew inv1 _ hadd.1.1
-    · exact inv1
-  · exact inv1
-
-theorem inv_migrate {e : Env} {i i' : Info} (inv : Inv i) (h : migrate e i = some i') : Inv i' := by
-  simp only [migrate] at h
-  split at h
-  · cases h
-  · rename_i hr0
-    have hrem0 : i.removing = [] := by simpa using hr0
-    split at h
-    · cases h
-    · rename_i i1 hml
-      obtain ⟨h1, h2, h3, h4, h5, h6⟩ := markLoop_props e i.nodes i i1 hml
-      have hlen1 : i1.removing.length ≤ 1 := by
-        rcases h6 with h6 | ⟨_, r, h6⟩
-        · rw [h6, hrem0]; simp
-        · rw [h6]; simp
-      split at h
-      · cases h
-      · split at h
-        · cases h
-        · split at h
-          · rename_i hw
-            injection h with h
-            subst h
-            simp only [Bool.and_eq_true] at hw
-            -- the written info has an ISR quorum by the final guard; everything else is inherited
-            generalize hj : chooseAdd e i1 (List.filter e.alive i.nodes).length = j at hw
-            have hq : isrQuorum j = true := hw.2
-            -- j is i1 or addNew i1 n (only when i1.removing = [])
-            unfold chooseAdd at hj
-            split at hj
-            · rename_i hadd
-              simp only [Bool.and_eq_true, List.isEmpty_iff] at hadd
-              split at hj
-              · split at hj
-                · subst hj; exact inv_base inv h2 h3 h5 hlen1 hq
-                · subst hj
-                  have inv1 : Inv i1 := by
-                    refine inv_base inv h2 h3 h5 hlen1 ?_
-                    have := inv.quorum
-                    rw [isr_nil hrem0] at this
-                    simp only [isrQuorum, isr_nil hadd.1.1, h1, h4, decide_eq_true_eq]; exact this
-                  exact inv_addNew inv1 _ hadd.1.1
-              · subst hj; exact inv_base inv h2 h3 h5 hlen1 hq
-            · subst hj; exact inv_base inv h2 h3 h5 hlen1 hq
-          · cases h
-
-/-- never marks a removal while half or more of the replicas are unreachable -/
-theorem migrate_marks_only_with_majority_alive {e : Env} {i i' : Info} (h : migrate e i = some i')
-    (hm : i'.removing ≠ []) : (i.nodes.filter e.alive).length > i.replica / 2 := by
-  simp only [migrate] at h
-  split at h
-  · cases h
-  · split at h
-    · cases h
-    · rename_i i1 hml
-      split at h
-      · cases h
-      · rename_i hguard
-        split at h
-        · cases h
-        · split at h
-          · injection h with h
-            subst h
-            -- chooseAdd never touches `removing`
-            have hrem : (chooseAdd e i1 (List.filter e.alive i.nodes).length).removing = i1.removing := by
-              unfold chooseAdd
-              split
-              · split
-                · split <;> rfl
-                · rfl
-              · rfl
-            rw [hrem] at hm
-            simp only [Bool.and_eq_true, Bool.not_eq_true', List.isEmpty_eq_false_iff, decide_eq_true_eq,
-              not_and, Nat.not_le] at hguard
-            exact hguard hm
-          · cases h
+/-! ### sequences of decisions -/
 
 inductive Act
-  | migrate (e : Env) | add (n : Nat) | remove (n : Nat) | finish (n : Nat)
+  | migrate | add (n : Nat) | remove (n : Nat) | finish | balance
+deriving Repr, DecidableEq
 
-def act (i : Info) : Act → Option Info
-  | .migrate e => migrate e i
-  | .add n => addNode i n
-  | .remove n => removeNode i n
-  | .finish n => finishRemoving i n
+def act (e : Env) (i : Info) : Act → Dec
+  | .migrate => migrate e i
+  | .add n => addNode e i n
+  | .remove n => removeNode e i n
+  | .finish => finishRemoving e i
+  | .balance => balance e i
 
-/-- the register after a sequence of decisions: a decision that writes nothing leaves it unchanged -/
-def runActs (i : Info) : List Act → Info
-  | [] => i
-  | a :: as => runActs ((act i a).getD i) as
+/-- the register after a decision: an attempted write is stored iff the compare-and-swap succeeds -/
+def after (e : Env) (i : Info) (d : Dec) : Info :=
+  match d.write with
+  | some i' => if e.casOk then i' else i
+  | none => i
 
-/-- **C18 invariant for every decision sequence and every environment** -/
-theorem inv_run : ∀ (as : List Act) (i : Info), Inv i → Inv (runActs i as) := by
-  intro as
-  induction as with
-  | nil => intro i h; exact h
-  | cons a as ih =>
-    intro i h
-    apply ih
-    cases hact : act i a with
-    | none => exact h
-    | some i' =>
-      simp only [Option.getD_some]
-      cases a with
-      | migrate e => exact inv_migrate h hact
-      | add n => exact inv_addNode h n hact
-      | remove n => exact inv_removeNode h n hact
-      | finish n => exact inv_finish h n hact
+/-- run a sequence of (environment, decision) pairs; returns every attempted write and the final register -/
+def run : Info → List (Env × Act) → List Info × Info
+  | i, [] => ([], i)
+  | i, (e, a) :: rest =>
+    let d := act e i a
+    let (ws, j) := run (after e i d) rest
+    (match d.write with | some w => w :: ws | none => ws, j)
 
--- non-vacuity: replica 3 on nodes 1,2,3; node 3 dies -> marked; removal finishes; a replacement is added
-def i0 : Info := ⟨[1, 2, 3], [(1, 1), (2, 2), (3, 3)], [], 3, 3, [1, 2, 3]⟩
-example : Inv i0 := by
-  refine ⟨by decide, by decide, by decide, by decide, by decide, by decide⟩
-def envDead3 : Env := ⟨fun n => n != 3, fun _ => true, true, 4, some 4⟩
-def envAll : Env := ⟨fun _ => true, fun _ => true, true, 4, some 4⟩
-example : ((migrate envDead3 i0).map (·.removing)) = some [3] := by decide
-example : (runActs i0 [.migrate envDead3, .finish 3, .migrate envAll]).nodes = [1, 2, 4] := by decide
-example : (runActs i0 [.migrate envDead3, .finish 3, .migrate envAll]).ids = [(4, 4), (1, 1), (2, 2)] := by decide
-
-#print axioms inv_run
 end Z.Coord
